@@ -19,8 +19,12 @@ What is proved here
   hull ⊆ input; consecutive triples turn strictly left (exact cross product), hence adjacent
   hull points are distinct; the hull starts with the first sorted point, which is the
   `min_by` point whenever that point's key sorts first.
-* **T4** (`min_area_rect`): only the `min`/`max` fold steps (`optMin_le`, `optMax_ge`); that the
-  rectangle contains every point is checked by the harness oracle (f32 geometry, tolerance).
+* **T4** (`min_area_rect`, exact arithmetic, un-normalised axes): the projection fold bounds
+  every hull point, `min_par ≤ par(p) ≤ max_par`, `perp(p) ≤ max_perp` (`c35_edgeBounds_spec`);
+  the missing lower bound `0 ≤ perp(p)` is literally the containment statement S3
+  (`c35_perpProj_eq_cross`).  The f32 rectangle itself is checked by the harness oracle.
+* **T2i** the hull never repeats a point; the sort really sorts by angle
+  (`Props/C35Order`: `c35_hullExact_nodup`, `c35_sorted_by_angle`).
 * **S3** containment / global convexity is *not* proved for all inputs: it is stated
   (`hullContainsCheck`) and checked by kernel evaluation on a small finite scope
   (`RtenVerif.Props.C35Bounded`, a bounded statement), and by the exact-arithmetic oracle of
@@ -398,5 +402,53 @@ theorem optMax_ge (a : Option Int) (b : Int) :
   cases a with
   | none => simp [optMax]
   | some v => simp only [optMax, Option.some.injEq]; constructor <;> intros <;> split at * <;> omega
+
+/-- `acc` bounds the projections of `p`. -/
+def Covered (s e : Pt) (acc : Option Int × Option Int × Option Int) (p : Pt) : Prop :=
+  ∃ a b c, acc = (some a, some b, some c) ∧ a ≤ parProj s e p ∧ parProj s e p ≤ b ∧
+    perpProj s e p ≤ c
+
+def edgeStep (s e : Pt) (acc : Option Int × Option Int × Option Int) (p : Pt) :
+    Option Int × Option Int × Option Int :=
+  (optMin acc.1 (parProj s e p), optMax acc.2.1 (parProj s e p), optMax acc.2.2 (perpProj s e p))
+
+theorem edgeStep_self (s e : Pt) (acc) (q : Pt) : Covered s e (edgeStep s e acc q) q := by
+  obtain ⟨a, b, c⟩ := acc
+  cases a <;> cases b <;> cases c <;>
+    simp only [edgeStep, optMin, optMax, Covered, Prod.mk.injEq, Option.some.injEq] <;>
+    refine ⟨_, _, _, ⟨rfl, rfl, rfl⟩, ?_, ?_, ?_⟩ <;> (try split) <;> omega
+
+theorem edgeStep_mono (s e : Pt) (acc) (q p : Pt) (h : Covered s e acc p) :
+    Covered s e (edgeStep s e acc q) p := by
+  obtain ⟨a, b, c, rfl, h1, h2, h3⟩ := h
+  simp only [edgeStep, optMin, optMax, Covered, Prod.mk.injEq, Option.some.injEq]
+  refine ⟨_, _, _, ⟨rfl, rfl, rfl⟩, ?_, ?_, ?_⟩ <;> split <;> omega
+
+theorem foldl_covered (s e : Pt) (l : List Pt) (acc) (p : Pt)
+    (h : p ∈ l ∨ Covered s e acc p) : Covered s e (l.foldl (edgeStep s e) acc) p := by
+  induction l generalizing acc with
+  | nil => rcases h with h | h; exact absurd h (by simp); exact h
+  | cons q qs ih =>
+    simp only [List.foldl_cons]
+    apply ih
+    rcases h with h | h
+    · rcases List.mem_cons.mp h with rfl | h
+      · exact Or.inr (edgeStep_self s e acc p)
+      · exact Or.inl h
+    · exact Or.inr (edgeStep_mono s e acc q p h)
+
+/-- **C35.T4a** The projection fold of `min_area_rect` for the edge `s → e` bounds every hull
+point: `min_par ≤ par(p) ≤ max_par` and `perp(p) ≤ max_perp` (exact arithmetic,
+un-normalised axes). -/
+theorem c35_edgeBounds_spec (s e : Pt) (hull : List Pt) (p : Pt) (hp : p ∈ hull) :
+    ∃ minPar maxPar maxPerp, edgeBounds s e hull = (some minPar, some maxPar, some maxPerp) ∧
+      minPar ≤ parProj s e p ∧ parProj s e p ≤ maxPar ∧ perpProj s e p ≤ maxPerp :=
+  foldl_covered s e hull (none, none, none) p (Or.inl hp)
+
+/-- **C35.T4b** The perpendicular projection is the orientation test of the hull scan, so the
+lower bound `0 ≤ perp(p)` of the rectangle is exactly "p is left of or on the edge". -/
+theorem c35_perpProj_eq_cross (s e p : Pt) : perpProj s e p = cross s e p := by
+  simp only [perpProj, cross]; grind
+
 
 end RtenVerif.Poly
